@@ -246,8 +246,12 @@ def translate(repo=None):
                 continue
             if isinstance(st, ast.If) and "hastings_ratio" in ast.unparse(st.test) and ".decide" not in order \
                     and ".propose" in order:
-                decide_ok = ast.dump(st) == ast.dump(ast.parse(DECIDE).body[0])
                 tests = loop_tests(st.test)
+                # the block must have the modelled statement shape; its first test may be any recognised
+                # failure test (which values it catches is what `loopFailureTests` records)
+                expected = ast.parse(DECIDE).body[0]
+                expected.test = st.test
+                decide_ok = ast.dump(st) == ast.dump(expected)
                 order.append(".decide")
                 continue
             if isinstance(st, ast.If) and ast.unparse(st.test) == "accepted":
